@@ -355,8 +355,9 @@ def _env():
         n = IntCol(default=None)
         s2 = StringCol(default=None)
     VerifC02Row.createTable()
-    VerifC02Row(s='sentinel', n=424242, s2="keep'me")
     raw = conn.getConnection()
+    # the sentinel row goes in through the driver's parameter binding, not through the code under test
+    raw.cursor().execute('INSERT INTO %s (s, n, s2) VALUES (?, ?, ?)' % VerifC02Row.sqlmeta.table, ('sentinel', 424242, "keep'me"))
     _ENV.update(conn=conn, T=VerifC02Row, raw=raw, enum_n=[0])
     return _ENV
 
@@ -515,6 +516,11 @@ def _db(env, c):
         q['expect_ne'] = sorted(i for i, s in truth.items() if s is not None and s != x)
         sel.append(q)
     o['select'] = sel
+    # None is a datum too: selectBy(col=None) must find exactly the rows holding NULL
+    try:
+        o['by_none'] = [sorted(r.id for r in T.selectBy(s2=None)), sorted(r[0] for r in rows if r[3] is None)]
+    except Exception as e:
+        o['by_none'] = ['exc', _exc(e)]
     # update the first created row to the last string
     if ids:
         try:
@@ -810,6 +816,9 @@ def oracle(c, o):
                     return {'what': 'select (!=) raised', 'x': R.from_cps(q['x'])}
             elif got != q['expect_ne']:
                 return {'what': 'select (!=) returned other rows', 'x': R.from_cps(q['x']), 'got': got, 'expected': q['expect_ne']}
+        bn = o.get('by_none')
+        if bn and (bn[0] == 'exc' or bn[0] != bn[1]):
+            return {'what': 'selectBy(col=None) does not select the rows holding NULL', 'observed': bn}
         if 'update' in o:
             u = o['update']
             bad = any(cp == 0 or 0xD800 <= cp <= 0xDFFF for cp in u[2])
